@@ -228,7 +228,8 @@ def units(tier):
     it = C13.register_inst(tier)
     it.name = 'c12_register_requests_entry_point_for_guest_signature'
     it.prop = PROP
-    us.append(Unit('C12_registration', [it]))
+    from .common import base_at_offset_zero_inst
+    us.append(Unit('C12_registration', [it, base_at_offset_zero_inst('c12_executing_sandbox_pointer_designates_the_sandbox_object', PROP, ['rlbox::vsbx'], tier)]))
     return us
 
 
